@@ -2,7 +2,7 @@
 from checks import engine as E
 from checks.engine import Failure
 
-WHAT = "model,hooks,classes,shapes,order"
+WHAT = "model,hooks,classes,shapes,order,erase"
 LEVEL = "proof"
 RULE = ("regression corpus + repository test snippets + seeded random programs under pooled configurations; coq/Shapes.v (extracted) reads "
         "the expected operand list off the first argument of every hook call of the implementation's output and compares it with the "
@@ -23,6 +23,12 @@ def judge(ctx):
     # hook is handed a later value than the one the original operation used (coq/Order.v)
     if "kept-identifier-before-effect" in (ctx.m.get("out_order") or []):
         out.append(Failure("an identifier operand left in place is followed by a captured operand with effects: it is read after them (a different value)"))
+    # "no operand is evaluated an extra time to build the argument list": an effectful sub-expression of the input that occurs
+    # more often in the output (coq/Erase.v dup_effects: by kind and source position) -- the hook is then handed the value of
+    # another evaluation than the one the operation used
+    dups = ctx.m.get("dup_effects") or []
+    if dups:
+        out.append(Failure("an effectful operand of the input occurs %d time(s) more in the output (evaluated again for the hook): %s" % (len(dups), str(dups[:2])[:160])))
     return out
 
 
